@@ -93,7 +93,47 @@ func GenC05(seed uint64) *Scenario {
 	return s
 }
 
+// sweepBase: consecutive run seeds share one base scenario and walk a position k over it, so that a batch of
+// seeds covers EVERY crash point / fault placement / failing block of that base scenario (the quantifiers say
+// "all crash points", "all placements", "every block"); one base in eight is swept.
+func sweepBase(seed uint64, width int, what string) (base uint64, k int, ok bool) {
+	base = seed / uint64(width)
+	if H(base, "sweep?", what)%8 != 0 {
+		return 0, 0, false
+	}
+	return base, int(seed % uint64(width)), true
+}
+
+// genC07CrashSweep: one complete scenario (package, request, schedule policy) whose first request is killed at
+// its k-th operation, k = 1..64 one by one and then in steps of four up to 192, followed by the same request on
+// whatever survived.
+func genC07CrashSweep(seed, base uint64, k int) *Scenario {
+	r := NewRng(base, "gen", "C07sweep")
+	b := genBase(r, GenOpts{WantStores: r.Range(1, 2), MinMods: 3, MaxMods: 6}, 0)
+	s := &Scenario{Prop: "C07", Seed: seed, Family: "crash_sweep", Pkg: b.pkg, Head: b.head, ConfDepth: uint64(r.Range(1, 4))}
+	genPolicy(r, s)
+	q := genDeepReq(r, b, b.pkg.Output, 0, 1, 4)
+	q.DebugSnap = nil
+	first := HistItem{Req: q}
+	op := k + 1
+	if k >= 64 {
+		op = 64 + (k-63)*4
+	}
+	first.Req.CrashAtOp = op
+	second := HistItem{Req: q}
+	if r.Chance(1, 2) {
+		second.Req = genDeepReq(r, b, b.pkg.Output, 0, 1, 5)
+		second.Req.DebugSnap = nil
+	}
+	s.History = []HistItem{first, second}
+	fixHead(s)
+	return s
+}
+
 func GenC07(seed uint64) *Scenario {
+	if base, k, ok := sweepBase(seed, 96, "C07"); ok {
+		return genC07CrashSweep(seed, base, k)
+	}
 	r := NewRng(seed, "gen", "C07")
 	b := genBase(r, GenOpts{WantStores: r.Range(0, 2), MinMods: 3, MaxMods: 7}, 0)
 	s := &Scenario{Prop: "C07", Seed: seed, Family: "cache_subsets", Pkg: b.pkg, Head: b.head, ConfDepth: uint64(r.Range(1, 4))}
@@ -149,7 +189,48 @@ func GenC07(seed uint64) *Scenario {
 
 var transientKinds = []string{"unavailable_at_call", "reset_mid_stream", "reset_after_completion", "silent_partition", "deadline_at_call", "deadline_mid_stream", "t2_crash", "t2_crash"}
 
+var sweepKinds = []string{"unavailable_at_call", "reset_mid_stream", "reset_after_completion", "silent_partition", "deadline_at_call", "deadline_mid_stream", "t2_crash", "failing_block"}
+
+// genC16Sweep: one base scenario (production request with several jobs); consecutive seeds place ONE transient
+// fault of each kind at the 1st, 2nd, ... 16th site where that kind can strike, or make one module fail
+// deterministically at the 1st, 2nd, ... block of the range.
+func genC16Sweep(seed, base uint64, k int) *Scenario {
+	r := NewRng(base, "gen", "C16sweep")
+	b := genBase(r, GenOpts{WantStores: r.Range(1, 2), MinMods: 3, MaxMods: 6, NoIndex: true}, 0)
+	s := &Scenario{Prop: "C16", Seed: seed, Pkg: b.pkg, Head: b.head, ConfDepth: uint64(r.Range(1, 4))}
+	genPolicy(r, s)
+	q := genDeepReq(r, b, b.pkg.Output, 0, 1, 3)
+	q.Prod = true
+	q.DebugSnap = nil
+	kind := sweepKinds[k%len(sweepKinds)]
+	n := k/len(sweepKinds) + 1
+	if kind == "failing_block" {
+		s.Family = "failing_block_sweep"
+		anc := b.pkg.Ancestors(q.Output)
+		var cands []*ModDef
+		for _, m := range b.pkg.Mods {
+			if anc[m.Spec.Name] && m.Spec.Kind != "index" {
+				cands = append(cands, m)
+			}
+		}
+		m := cands[r.Intn(len(cands))]
+		mode := r.Intn(2)
+		span := q.Stop - uint64(q.Start)
+		m.Spec.FailAt = int64(uint64(q.Start) + uint64(n-1)%span)
+		m.Spec.FailMode = mode
+	} else {
+		s.Family = "placement_sweep"
+		s.NthF = map[string]int{kind: n}
+	}
+	s.History = []HistItem{{Req: q}}
+	fixHead(s)
+	return s
+}
+
 func GenC16(seed uint64) *Scenario {
+	if base, k, ok := sweepBase(seed, 128, "C16"); ok {
+		return genC16Sweep(seed, base, k)
+	}
 	r := NewRng(seed, "gen", "C16")
 	b := genBase(r, GenOpts{WantStores: r.Range(0, 2), MinMods: 3, MaxMods: 6, NoIndex: r.Chance(3, 4)}, 0)
 	s := &Scenario{Prop: "C16", Seed: seed, Pkg: b.pkg, Head: b.head, ConfDepth: uint64(r.Range(1, 4))}
